@@ -198,3 +198,130 @@ def rule_A3(ctx):
         fnd, _W, _R, _d = analyse_lexer(F, cf, cstruct, cfield, rr)
         r.neg_control("ok_sticky", not fnd)
     return r
+
+
+# ---------------------------------------------------------------------------------------------------------------------
+# A8  trie-step classification sync.  The lexer classifies operators by walking a trie of the operator table; after each
+#     character the token type must be the type *of the trie node reached* - including "no type" for a node that is only a
+#     prefix of longer operators, which is what makes `>.` an error instead of a `>` token with the text `>.`.  Structurally:
+#     on the Some(node) edge of every call of the trie walk made by a &mut self method, every path to the function's return
+#     stores node.<type field> into the lexer's own type field (must-pass-through on the MIR CFG).
+
+
+def _walk_fns(F, struct_path, node_suffix):
+    """methods of the struct returning Option<&Node>: the trie walk."""
+    out = []
+    short = struct_path.split("::")[-1]
+    for f in F.fns.values():
+        if short in f.get("impl_self", "") and f["kind"] != "Closure" and f["crate"] == struct_path.split("::")[0]:
+            rt = f["mir"]["locals"][0]["ty"]
+            if rt.startswith("core::option::Option<&") and node_suffix in rt:
+                out.append(f["path"])
+    return out
+
+
+def trie_sync_sites(F, f, walk_paths, node_ty_suffix):
+    """[(where, ok, witness)] for each Some-edge of a trie-walk call in f (f takes &mut self)."""
+    mir = f["mir"]
+    if not mir["locals"][1]["ty"].startswith("&mut ") if len(mir["locals"]) > 1 else True:
+        return []
+    asg = mirq.assignments(mir)
+    out = []
+    for bi, b in enumerate(mir["blocks"]):
+        t = b["term"]
+        if b["cleanup"] or t["k"] != "Call" or (t.get("resolved") or t.get("def")) not in walk_paths:
+            continue
+        if t["dest"]["p"]:
+            continue
+        res = t["dest"]["l"]
+        # blocks that bind `(res as Some).0`
+        some_blocks = []
+        node_locals = set()
+        for ci, cb in enumerate(mir["blocks"]):
+            for s in cb["stmts"]:
+                if s["k"] == "Assign" and s["rv"]["k"] == "Use":
+                    pl = mirq.op_place(s["rv"]["op"])
+                    if pl and pl["l"] == res and any(isinstance(e, dict) and e.get("as") == "Some" for e in pl["p"]):
+                        some_blocks.append(ci)
+                        if not s["place"]["p"]:
+                            node_locals.add(s["place"]["l"])
+        if not some_blocks:
+            continue  # the result is only tested (is_some) or passed on: no node is bound here
+
+        def type_field_read(rv):
+            """rvalue reads <node>.<field> where node is one of the bound nodes"""
+            if rv["k"] != "Use":
+                return False
+            pl = mirq.op_place(rv["op"])
+            if not pl or not pl["p"]:
+                return False
+            lastp = pl["p"][-1]
+            if not (isinstance(lastp, dict) and "f" in lastp):
+                return False
+            base = pl["l"]
+            bases = set([base]) | set(o[3] for o in mirq.origins(mir, base, asg))
+            return bool(bases & node_locals) or any(
+                o[2].get("k") == "Use" and (mirq.op_place(o[2]["op"]) or {}).get("l") == res for o in mirq.origins(mir, base, asg))
+
+        def is_marker(ci, cb):
+            for s in cb["stmts"]:
+                if s["k"] != "Assign":
+                    continue
+                pr = s["place"]["p"]
+                # a store into a field of *self whose value is the node's own type field (directly or through a temp)
+                if s["place"]["l"] == 1 and pr and pr[0] == "*" and any(isinstance(e, dict) and "f" in e for e in pr):
+                    rv = s["rv"]
+                    if type_field_read(rv):
+                        return True
+                    if rv["k"] == "Use":
+                        l = mirq.op_local(rv["op"])
+                        if l is not None and any(type_field_read(o[2]) for o in mirq.origins(mir, l, asg) if o[1] != "term"):
+                            return True
+            return False
+
+        for sb in sorted(set(some_blocks)):
+            if is_marker(sb, mir["blocks"][sb]):
+                out.append((loc(t), True, None))
+                continue
+            w = mirq.path_avoiding(mir, mirq.succs(mir["blocks"][sb]["term"]), is_marker)
+            out.append((loc(t), w is None, w))
+    return out
+
+
+def rule_A8(ctx):
+    F = ctx.F
+    r = RuleResult("A8", "trie-step classification sync: after every step of the operator-trie walk the lexer's token type is the type of the node reached (also when that is none)")
+    slots = [s for s in _slot_places(F, "::lexer::Lexer") if s[0].startswith("garnish_lang_compiler")]
+    if not slots:
+        r.anchor_missing("Lexer", "no struct *::lexer::Lexer")
+        return r
+    struct = slots[0][0]
+    walks = _walk_fns(F, struct, "LexerOperatorNode")
+    if not walks:
+        r.anchor_missing("trie walk", "no Lexer method returning Option<&LexerOperatorNode>")
+        return r
+    r.analysed["trie_walk_functions"] = walks
+    n = 0
+    for f in sorted(F.fns.values(), key=lambda f: f["path"]):
+        if f["crate"] != "garnish_lang_compiler" or struct.split("::")[-1] not in f.get("impl_self", "") or f["kind"] == "Closure":
+            continue
+        k = 0
+        for where, ok, w in trie_sync_sites(F, f, walks, "LexerOperatorNode"):
+            n += 1
+            k += 1
+            r.examine((f["path"], where), True, {"fn": f["path"], "trie_step_at": where, "type_follows_node_on_every_path": ok})
+            if not ok:
+                r.finding(f["path"], "stale-type#%d" % k, where, "after the trie step at %s a path reaches the end of the function without storing the reached node's type into the lexer's token type (blocks %s): a prefix node without a type of its own keeps the previous operator's classification, so the token's text and type disagree" % (where, w),
+                          path=["CFG blocks: " + " -> ".join("bb%d" % x for x in (w or []))])
+    r.floor("trie steps that bind the reached node", n, 2)
+    for f in F.fns_in("gfixture::a8::"):
+        if f["kind"] == "Closure" or not f.get("name", "").startswith(("ctl_", "ok_")):
+            continue
+        ws = [p for p, g in F.fns.items() if p.startswith("gfixture::a8::") and g.get("name") == "reached"]
+        sites = trie_sync_sites(F, f, ws, "Node")
+        bad = any(not ok for _w, ok, _p in sites)
+        if f["name"].startswith("ctl_"):
+            r.control(f["name"], bad)
+        else:
+            r.neg_control(f["name"], bool(sites) and not bad)
+    return r
